@@ -1,24 +1,29 @@
-/* C11 (ordered set, bst.c): one operation from an ARBITRARY valid binary search tree of up to N nodes, followed by
- * an observation suffix through the public API.
+/* C11 (ordered set, bst.c): one operation from an ARBITRARY valid binary search tree, followed by an observation
+ * suffix through the public API.  One job = one tree shape (every shape of <= N nodes is a job, see vf/specs/C11.py).
  *
- * Pre-state (built directly, = representation invariant of bst.c): n <= N nodes calloc'd by the harness; node 0 is
- * the root, node i > 0 hangs under a symbolic earlier node on a symbolic free side (every shape has such a
- * numbering); parent links consistent; every node's key lies strictly inside the open interval inherited from its
- * ancestors (= BST ordering); len == n.  Histories of any length that lead to such a tree are covered by the step.
+ * Pre-state (built directly, = representation invariant of bst.c): N nodes calloc'd by the harness and linked in the
+ * shape given by VF_PAR / VF_SIDE (node 0 is the root, parents precede children); parent links consistent; every
+ * node's key lies strictly inside the open interval inherited from its ancestors (= BST ordering); len == N.
+ * Histories of any length that lead to such a tree are covered by the single step.  The shape is fixed per job because
+ * CBMC scales on this code only while the heap shape is concrete (DESIGN.md section 2; measured here: symbolic shape
+ * of <= 3 nodes = 11.5 M SAT variables, no verdict in 15 min); for the same reason the operations are run in an
+ * explicit case split without a join (run_op is called with constant op / removal mask).
  *
  * Elements are cells of a static array (identity = index).  With the user comparator two neighbouring cells form one
  * comparator class (index / 2), so distinct pointers may compare equal; with the default comparator (NULL passed to
  * m_bst_new) every cell is its own class and the order is the address order.  The class function is monotone in the
- * index, hence "ascending comparator order" == ascending index and the model is a bitmap over the cells.
+ * index.  The model is the ascending array of the cells in the set.
  *
- * Symbolic: n, shape (parent + side per node), element of every node, comparator/destructor installed, op, argument
- * element, traversal order / stop position / callback result, set of positions removed through the iterator, key of
- * the suffix find.
+ * Symbolic: element of every node (any assignment satisfying the ordering), comparator / destructor installed,
+ * op, argument element, traversal order / stop position / callback result, set of positions removed through the
+ * iterator, key of the suffix find.
  *
  * Only what C11 promises is asserted: acceptance/rejection (sign of the return value), which element is found /
  * removed / destroyed, exact length, visit-once + ascending order of in-order traversal and of the iterator,
  * pre/post-order consistent with ONE search tree (reconstructed from the pre-order output), positive callback results
- * stop a traversal and are not forwarded, negative ones are forwarded (tests/test_bst.c relies on both). */
+ * stop a traversal and are not forwarded, negative ones are forwarded (tests/test_bst.c relies on both).
+ * In addition the suffix re-establishes the part of the pre-state invariant that traversals do not show (parent
+ * links): that is the induction hypothesis, any failure of it must be triaged with an API-level reproducer. */
 #include "vf.h"
 #include <structs/bst.c>
 
@@ -39,7 +44,7 @@ static int idx(void *p) { return (int)((char *)p - elems); }
 static _Bool with_cmp, with_dtor;
 static int kf(int e) { return with_cmp ? e / 2 : e; }
 
-static int dt_cnt[NE], exp_dt[NE], dt_bad;
+static unsigned char dt_cnt[NE], exp_dt[NE], dt_bad;
 void vf_dtor(void *p) { int i = idx(p); if (i >= 0 && i < NE) dt_cnt[i]++; else dt_bad++; }
 int vf_cmp(void *my, void *theirs) { return idx(my) / 2 - idx(theirs) / 2; }
 
@@ -52,24 +57,28 @@ int vf_cb(void *up, void *data) {
     return 0;
 }
 
-/* ---- model: bitmap of the cells in the set; at most one per class ---- */
-static _Bool in[NE];
-static int mlen;
-static int srt[MAXN + 1], slen;
-static void build_sorted(void) {
-    slen = 0;
-    for (int e = 0; e < NE; e++) if (in[e]) { if (slen <= MAXN) srt[slen] = e; slen++; }
+/* ---- model: the cells in the set, ascending; at most one per class ---- */
+static int srt[MAXN + 2], mlen;
+/* position of the element of the set that compares equal to cell a, or -1 */
+static int model_pos(int a) {
+    int p = -1;
+    for (int i = 0; i < MAXN; i++) if (i < mlen && kf(srt[i]) == kf(a)) p = i;
+    return p;
 }
-/* the element of the set that compares equal to cell a, or -1 */
-static int model_eq(int a) {
-    if (in[a]) return a;
-    if (with_cmp && in[a ^ 1]) return a ^ 1;
-    return -1;
+static void model_insert(int a) {
+    int p = 0;
+    for (int i = 0; i < MAXN; i++) if (i < mlen && kf(srt[i]) < kf(a)) p = i + 1;
+    for (int i = MAXN; i > 0; i--) if (i > p) srt[i] = srt[i - 1];
+    srt[p] = a; mlen++;
+}
+static void model_remove(int p) {
+    for (int i = 0; i < MAXN; i++) if (i >= p) srt[i] = srt[i + 1];
+    mlen--;
 }
 
-/* ---- pre/post-order consistency: rebuild the unique search tree with the given pre-order (interval recursion) and
- *      emit its post-order ---- */
-static int cv_pre[MAXN + 1], cv_n, cv_idx, cv_out[MAXN + 1], cv_on;
+/* ---- pre/post-order consistency: rebuild the unique search tree that has the given pre-order (interval recursion)
+ *      and emit its in-order and post-order ---- */
+static int cv_pre[MAXN + 1], cv_n, cv_idx, cv_post[MAXN + 1], cv_pn, cv_in[MAXN + 1], cv_in_n;
 static void conv(int lo, int hi, int depth) {
     if (depth > MAXN) return;              /* a tree of <= MAXN nodes has no node this deep; keeps the recursion concrete */
     if (cv_idx >= cv_n) return;
@@ -77,9 +86,11 @@ static void conv(int lo, int hi, int depth) {
     if (k <= lo || k >= hi) return;
     int root = cv_pre[cv_idx++];
     conv(lo, k, depth + 1);
+    if (cv_in_n <= MAXN) cv_in[cv_in_n] = root;
+    cv_in_n++;
     conv(k, hi, depth + 1);
-    if (cv_on <= MAXN) cv_out[cv_on] = root;
-    cv_on++;
+    if (cv_pn <= MAXN) cv_post[cv_pn] = root;
+    cv_pn++;
 }
 
 static int full_traverse(m_bst_t *t, m_bst_order o) {
@@ -95,9 +106,22 @@ static void check_links(bst_node *node, bst_node *parent, int depth) {
     check_links(node->right, node, depth + 1);
 }
 
-enum { OP_INSERT, OP_REMOVE, OP_TRAVERSE, OP_ITERATE, OP_ITR_WALK, OP_CLEAR, OP_FREE, OP_NONE, NOPS };
+#define OP_INSERT 0
+#define OP_REMOVE 1
+#define OP_TRAVERSE 2
+#define OP_ITERATE 3
+#define OP_ITR_WALK 4
+#define OP_CLEAR 5
+#define OP_FREE 6
+#define OP_NONE 7
+#define NOPS 8
+#define HAS_OP(o) ((VF_OPS >> (o)) & 1)
 #ifndef VF_OPS
 #define VF_OPS 0xff                    /* bit mask of the operations this job covers */
+#endif
+#ifndef VF_MASK_LO
+#define VF_MASK_LO 0                   /* range of iterator-removal masks this job covers */
+#define VF_MASK_HI 255
 #endif
 #ifndef VF_SUFFIX_ITR
 #define VF_SUFFIX_ITR 0                /* 1: walk the iterator in the suffix also after insert / remove (expensive) */
@@ -106,8 +130,6 @@ enum { OP_INSERT, OP_REMOVE, OP_TRAVERSE, OP_ITERATE, OP_ITR_WALK, OP_CLEAR, OP_
 /* everything the public API shows about the set must agree with the model */
 static void check_state(m_bst_t *t, const unsigned op) {
     int r;
-    build_sorted();
-    VF_CHECK(slen == mlen, "harness: model bookkeeping");
     VF_CHECK(m_bst_len(t) == mlen, "length is exact");
 
     r = full_traverse(t, M_BST_IN);
@@ -115,18 +137,23 @@ static void check_state(m_bst_t *t, const unsigned op) {
     VF_CHECK(cb_n == mlen, "in-order traversal visits every element exactly once");
     for (int i = 0; i < MAXN; i++) if (i < mlen && i < cb_n) VF_CHECK(cb_seen[i] == srt[i], "in-order traversal is strictly ascending = the sorted set");
 
-    r = full_traverse(t, M_BST_PRE);
-    VF_CHECK(r == 0, "pre-order traversal succeeds");
-    VF_CHECK(cb_n == mlen, "pre-order traversal visits every element exactly once (count)");
-    cv_n = cb_n <= MAXN ? cb_n : MAXN;
-    for (int i = 0; i < MAXN; i++) if (i < cv_n) { cv_pre[i] = cb_seen[i]; VF_CHECK(cb_seen[i] >= 0 && cb_seen[i] < NE && in[cb_seen[i]], "pre-order reports only elements of the set"); }
-    cv_idx = 0; cv_on = 0;
-    conv(-1, NE, 0);
-    VF_CHECK(cv_idx == cv_n, "pre-order output is the pre-order of a binary search tree");
-    r = full_traverse(t, M_BST_POST);
-    VF_CHECK(r == 0, "post-order traversal succeeds");
-    VF_CHECK(cb_n == mlen, "post-order traversal visits every element exactly once (count)");
-    for (int i = 0; i < MAXN; i++) if (i < cv_on && i < cb_n) VF_CHECK(cb_seen[i] == cv_out[i], "post-order output is the post-order of the same search tree");
+    /* (after iterator removals the tree is again a valid tree of fewer nodes - in-order and parent links are checked
+     * here -, for which pre/post-order, find and the iterator are established by the jobs of the smaller shapes) */
+    if (op != OP_ITR_WALK) {
+        r = full_traverse(t, M_BST_PRE);
+        VF_CHECK(r == 0, "pre-order traversal succeeds");
+        VF_CHECK(cb_n == mlen, "pre-order traversal visits every element exactly once (count)");
+        cv_n = cb_n <= MAXN ? cb_n : MAXN;
+        for (int i = 0; i < MAXN; i++) if (i < cv_n) cv_pre[i] = cb_seen[i];
+        cv_idx = 0; cv_pn = 0; cv_in_n = 0;
+        conv(-1, NE, 0);
+        VF_CHECK(cv_idx == cv_n, "pre-order output is the pre-order of a binary search tree");
+        for (int i = 0; i < MAXN; i++) if (i < cv_in_n && i < mlen) VF_CHECK(cv_in[i] == srt[i], "the search tree with that pre-order holds exactly the elements of the set");
+        r = full_traverse(t, M_BST_POST);
+        VF_CHECK(r == 0, "post-order traversal succeeds");
+        VF_CHECK(cb_n == mlen, "post-order traversal visits every element exactly once (count)");
+        for (int i = 0; i < MAXN; i++) if (i < cv_pn && i < cb_n) VF_CHECK(cb_seen[i] == cv_post[i], "post-order output is the post-order of the same search tree");
+    }
 
     VF_CHECK(t->root == NULL || t->root->parent == NULL, "representation: the root has no parent");
     check_links(t->root, NULL, 0);
@@ -148,10 +175,12 @@ static void check_state(m_bst_t *t, const unsigned op) {
         VF_CHECK(it == NULL && v == mlen, "iterator ends after the last element, having visited every element");
     }
 
-    unsigned char b = nondet_uchar(); VF_ASSUME(b < NE);
-    void *d = m_bst_find(t, EL(b));
-    int eq = model_eq(b);
-    VF_CHECK(d == (eq >= 0 ? EL(eq) : NULL), "find returns exactly the element comparing equal to the key, or nothing");
+    if (op != OP_ITR_WALK) {
+        unsigned char b = nondet_uchar(); VF_ASSUME(b < NE);
+        void *d = m_bst_find(t, EL(b));
+        int p = model_pos(b);
+        VF_CHECK(d == (p >= 0 ? EL(srt[p]) : NULL), "find returns exactly the element comparing equal to the key, or nothing");
+    }
 }
 
 static void check_dtors(void) {
@@ -161,9 +190,8 @@ static void check_dtors(void) {
 
 /* iterator walk over the whole set, removing the positions in `mask` through the iterator */
 static void itr_walk(m_bst_t *t, const unsigned mask) {
-    int r;
-    build_sorted();
-    int n0 = mlen;
+    int r, kept[MAXN + 1], nk = 0;
+    const int n0 = mlen;
     m_bst_itr_t *it = m_bst_itr_new(t);
     VF_CHECK((it != NULL) == (n0 > 0), "iterator exists iff the set is non-empty");
     int v = 0;
@@ -171,36 +199,39 @@ static void itr_walk(m_bst_t *t, const unsigned mask) {
         if (!it) break;
         void *d = m_bst_itr_get_data(it);
         VF_CHECK(v < n0 && d == EL(srt[v < n0 ? v : 0]), "iterator yields every element once, ascending, also after removals through it");
-        if (v < n0 && ((mask >> v) & 1)) {
-            r = m_bst_itr_remove(it); VF_CHECK(r == 0, "removal of the current element through the iterator succeeds");
-            in[srt[v]] = 0; mlen--; if (with_dtor) exp_dt[srt[v]]++;
+        if (v < n0) {
+            if ((mask >> v) & 1) {
+                r = m_bst_itr_remove(it); VF_CHECK(r == 0, "removal of the current element through the iterator succeeds");
+                if (with_dtor) exp_dt[srt[v]]++;
+            } else kept[nk++] = srt[v];
         }
         v++;
         m_bst_itr_next(&it);
     }
     VF_CHECK(it == NULL && v == n0, "iterator ends after the last element, having visited every element");
+    for (int i = 0; i < MAXN; i++) if (i < nk) srt[i] = kept[i];
+    mlen = nk;
 }
 
 /* `op` (and `mask`) are compile-time constants at every call site: the heap stays concrete as long as the library
  * does not branch on a comparison */
 static int run_op(m_bst_t *t, const unsigned op, const unsigned mask, unsigned char a) {
-    int r, eq;
+    int r, p;
     switch (op) {
     case OP_INSERT:
-        eq = model_eq(a);
+        p = model_pos(a);
         r = m_bst_insert(t, EL(a));
-        if (eq >= 0) VF_CHECK(r < 0, "insert of an element comparing equal to a present one is rejected");
-        else { VF_CHECK(r == 0, "insert is accepted when no element compares equal"); in[a] = 1; mlen++; }
+        if (p >= 0) VF_CHECK(r < 0, "insert of an element comparing equal to a present one is rejected");
+        else { VF_CHECK(r == 0, "insert is accepted when no element compares equal"); model_insert(a); }
         break;
     case OP_REMOVE:
-        eq = model_eq(a);
+        p = model_pos(a);
         r = m_bst_remove(t, EL(a));
-        if (eq < 0) VF_CHECK(r < 0, "remove of an absent key fails");
-        else { VF_CHECK(r == 0, "remove of a present key succeeds"); in[eq] = 0; mlen--; if (with_dtor) exp_dt[eq]++; }
+        if (p < 0) VF_CHECK(r < 0, "remove of an absent key fails");
+        else { VF_CHECK(r == 0, "remove of a present key succeeds"); if (with_dtor) exp_dt[srt[p]]++; model_remove(p); }
         break;
     case OP_TRAVERSE: { /* traversal in a symbolic order, optionally stopped by the callback */
         VF_PICK(ty, 4);
-        build_sorted();
         cb_n = 0; cb_stop_at = nondet_uchar(); cb_ret = nondet_bool() ? 5 : -7;
         r = m_bst_traverse(t, ty == 0 ? M_BST_PRE : ty == 1 ? M_BST_POST : ty == 2 ? M_BST_IN : (m_bst_order)7, vf_cb, NULL);
         if (ty == 3) VF_CHECK(r < 0 && cb_n == 0, "unknown traversal order is rejected");
@@ -218,7 +249,9 @@ static int run_op(m_bst_t *t, const unsigned op, const unsigned mask, unsigned c
         VF_CHECK(cb_n == expn, "iterate calls the callback once per element until it is stopped");
         VF_CHECK(r == ((cb_stop_at < mlen && cb_ret < 0) ? cb_ret : 0), "iterate forwards a negative callback result, not a positive one");
         for (int i = 0; i < N; i++) if (i < expn && i < cb_n) {
-            VF_CHECK(cb_seen[i] >= 0 && cb_seen[i] < NE && in[cb_seen[i]], "iterate reports only elements of the set");
+            _Bool member = 0;
+            for (int j = 0; j < N; j++) if (j < mlen && srt[j] == cb_seen[i]) member = 1;
+            VF_CHECK(member, "iterate reports only elements of the set");
             for (int j = 0; j < i; j++) VF_CHECK(cb_seen[j] != cb_seen[i], "iterate reports no element twice");
         }
         break; }
@@ -228,15 +261,17 @@ static int run_op(m_bst_t *t, const unsigned op, const unsigned mask, unsigned c
     case OP_CLEAR:
         r = m_bst_clear(t);
         if (mlen > 0) VF_CHECK(r == 0, "clear of a non-empty set succeeds");
-        for (int i = 0; i < NE; i++) if (in[i]) { if (with_dtor) exp_dt[i]++; in[i] = 0; }
+        for (int i = 0; i < N; i++) if (i < mlen && with_dtor) exp_dt[srt[i]]++;
         mlen = 0;
         break;
     case OP_FREE:
         r = m_bst_free(&t);
         VF_CHECK(r == 0 && t == NULL, "free clears the handle");
-        for (int i = 0; i < NE; i++) if (in[i] && with_dtor) exp_dt[i]++;
+        for (int i = 0; i < N; i++) if (i < mlen && with_dtor) exp_dt[srt[i]]++;
         check_dtors();
+#if HAS_OP(OP_FREE)
         VF_WITNESS("free");
+#endif
         return 0;
     default: /* OP_NONE: the suffix alone = len / find / traversals / iterator on the arbitrary tree */
         break;
@@ -244,15 +279,39 @@ static int run_op(m_bst_t *t, const unsigned op, const unsigned mask, unsigned c
     check_state(t, op);
     check_dtors();
     switch (op) {                      /* one reachability witness per operation */
+#if HAS_OP(OP_INSERT)
     case OP_INSERT: VF_WITNESS("insert"); break;
+#endif
+#if HAS_OP(OP_REMOVE)
     case OP_REMOVE: VF_WITNESS("remove"); break;
+#endif
+#if HAS_OP(OP_TRAVERSE)
     case OP_TRAVERSE: VF_WITNESS("traverse"); break;
+#endif
+#if HAS_OP(OP_ITERATE)
     case OP_ITERATE: VF_WITNESS("iterate"); break;
+#endif
+#if HAS_OP(OP_ITR_WALK)
     case OP_ITR_WALK: VF_WITNESS("iterator walk"); break;
+#endif
+#if HAS_OP(OP_CLEAR)
     case OP_CLEAR: VF_WITNESS("clear"); break;
-    default: VF_WITNESS("none"); break;
+#endif
+#if HAS_OP(OP_NONE)
+    case OP_NONE: VF_WITNESS("none"); break;
+#endif
+    default: break;
     }
     return 0;
+}
+
+/* in-order numbering of the (concrete) shape */
+static int sh_lc[N + 1], sh_rc[N + 1], sh_ord[N + 1], sh_k;
+static void shape_inorder(int i, int depth) {
+    if (i < 0 || depth > N) return;
+    shape_inorder(sh_lc[i], depth + 1);
+    sh_ord[sh_k++] = i;
+    shape_inorder(sh_rc[i], depth + 1);
 }
 
 int vf_main(void) {
@@ -279,18 +338,22 @@ int vf_main(void) {
         VF_ASSUME(lo[i] < kf(el[i]) && kf(el[i]) < hi[i]);
     }
     t->root = n ? nd[0] : NULL; t->len = n;
-    for (int i = 0; i < N; i++) in[el[i]] = 1;
+    for (int i = 0; i < N + 1; i++) sh_lc[i] = sh_rc[i] = -1;
+    for (int i = 1; i < N; i++) if (sh_side[i]) sh_rc[sh_par[i]] = i; else sh_lc[sh_par[i]] = i;
+    sh_k = 0;
+    if (n) shape_inorder(0, 0);
+    for (int i = 0; i < N; i++) srt[i] = el[sh_ord[i]];
     mlen = n;
 
     VF_PICK(op, NOPS);
     VF_ASSUME((VF_OPS >> op) & 1);
     unsigned char a = nondet_uchar(); VF_ASSUME(a < NE);
-    unsigned char mask = nondet_uchar(); VF_ASSUME(mask < (1u << N));
+    unsigned char mask = nondet_uchar(); VF_ASSUME(mask < (1u << N) && mask >= VF_MASK_LO && mask <= VF_MASK_HI);
     /* explicit case split, no join afterwards: every (operation, removal mask) runs on the un-merged concrete heap */
     for (unsigned o = 0; o < NOPS; o++) {
         if (!((VF_OPS >> o) & 1)) continue;
         if (o == OP_ITR_WALK) {
-            for (unsigned m = 0; m < (1u << N); m++) if (op == o && mask == m) return run_op(t, o, m, a);
+            for (unsigned m = 0; m < (1u << N); m++) { if (m < VF_MASK_LO || m > VF_MASK_HI) continue; if (op == o && mask == m) return run_op(t, o, m, a); }
         } else if (op == o) return run_op(t, o, 0, a);
     }
     return 0;
